@@ -73,6 +73,34 @@ def tlc_generate(shapes: List[Shape], plans: List[List[str]], max_ver: int, stor
     return (first, hists)
 
 
+def tlc_generate_start(shapes: List[Shape], plans: List[List[str]], max_ver: int, store_kind: str,
+                       placement: str, layouts: List[str], cfg: str = "DdsEval_gen.cfg",
+                       timeout: int = 900, name: str = "gen", stages: List[int] = [5],
+                       fail_classes: List[str] = [], log_ops: bool = False, procs: int = 0) -> List[common.TLCHandle]:
+    """tlc_generate, not waiting: the single-worker TLC processes are started and left running"""
+    n = max(1, min(procs or common.NCPU, len(shapes)))
+    groups: List[List[int]] = [[] for _ in range(n)]
+    for i in range(len(shapes)):
+        groups[i % n].append(i + 1)
+    hs = []
+    for (k, ids) in enumerate(groups):
+        d = common.stage_spec({
+            "ShapeData.tla": shp.shape_data_module(shapes),
+            "RunConf.tla": runconf.runconf(max_ver, store_kind, placement, plans, True, ids, layouts,
+                                           stages, fail_classes, log_ops)}, "%s%d" % (name, k))
+        hs.append(common.start_tlc(d, "DdsEval.tla", cfg, workers=1, timeout=timeout, heap="2g"))
+    return hs
+
+
+def tlc_generate_finish(handles: List[common.TLCHandle], cfg: str = "DdsEval_gen.cfg") -> List[Dict[str, Any]]:
+    hists: List[Dict[str, Any]] = []
+    for h in handles:
+        r = h.finish()
+        common.tlc_must_pass(r, "DdsEval generation (%s)" % cfg)
+        hists += r.printed("HIST")
+    return hists
+
+
 def _gen_one(a) -> Tuple[common.TLCResult, List[Dict[str, Any]]]:
     (shapes, plans, max_ver, store_kind, placement, layouts, cfg, timeout, name, ids, stages, fail_classes, log_ops) = a
     d = common.stage_spec({
